@@ -8,6 +8,7 @@ event models are integrated).  Hidden state of the Python objects is decided by 
 (harness/c16.py).
 -/
 import SpiceEv.Proofs.ScenarioRun
+import SpiceEv.Proofs.StrategiesFrame
 set_option linter.unusedSectionVars false
 namespace SpiceEv
 variable {α : Type} [Field α] [LinearOrder α] [IsStrictOrderedRing α]
@@ -30,5 +31,86 @@ theorem C16_report_local (genKeys : List String) (g h : GcObs α)
     gcReport genKeys g = gcReport genKeys h := by
   unfold gcReport
   rw [hl, hr]
+
+
+/-! ### isolation of connectors in the greedy / balanced step (any number type the model runs on) -/
+
+section Isolation
+open Frame
+variable {β B : Type} [Add β] [Sub β] [Mul β] [Div β] [Neg β] [LT β] [LE β]
+  [DecidableLT β] [DecidableLE β] [OfNat β 0] [OfNat β 1] [NatCast β] [IntCast β]
+
+/-- **Isolation.** `σ` names a connector `g`, its stations `S`, the vehicles `V` connected to them and
+its stationary batteries `Bs` (`Link`: the names are right for both worlds).  If two worlds agree on
+that part — whatever else they contain: other connectors, their stations, vehicles, batteries,
+prices, loads — then `Greedy.step` / `Balanced.step` (allocation pass, surplus/V2G pass, battery pass)
+leave them agreeing on it: same connector loads, station powers, vehicle and battery states, and
+the same commands for `g`'s stations. -/
+theorem C16_ruleStep_isolation (rule : Rule) (ops : BatOps β B) (env : StratEnv β) (σ : Sel)
+    (w1 w2 w1' w2' : SWorld β B) (cmds1 cmds2 : List (String × β))
+    (hl1 : Link σ w1) (hl2 : Link σ w2) (hsame : part σ w1 = part σ w2)
+    (h1 : ruleStep rule ops env w1 = .ok (w1', cmds1))
+    (h2 : ruleStep rule ops env w2 = .ok (w2', cmds2)) :
+    part σ w1' = part σ w2' ∧
+    cmds1.filter (fun kv => σ.S.contains kv.1) = cmds2.filter (fun kv => σ.S.contains kv.1) := by
+  have e1 := ruleStep_part σ rule ops env w1 w1' cmds1 hl1 h1
+  have e2 := ruleStep_part σ rule ops env w2 w2' cmds2 hl2 h2
+  rw [hsame, e2] at e1
+  simp only [Except.ok.injEq, Prod.mk.injEq] at e1
+  exact ⟨e1.1.symm, e1.2.symm⟩
+
+/-- **Adding an unrelated connector changes nothing at the existing ones.**  `x` brings its own
+connectors, stations, vehicles and batteries under new ids (`Unrelated`); ids of `w` are unique (dict
+keys).  If the step succeeds on `w` and on `w` with `x` appended, then for every connector of `w` the
+results coincide: loads, station powers, SoCs and commands.  (And by `ruleStep_part` the step on `w`
+alone succeeds whenever the step on the larger world does, restricted to each connector.) -/
+theorem C16_added_connector (rule : Rule) (ops : BatOps β B) (env : StratEnv β)
+    (w x w' wx' : SWorld β B) (cmds cmdsx : List (String × β))
+    (hu : UniqueIds w) (hx : Unrelated w x)
+    (h1 : ruleStep rule ops env w = .ok (w', cmds))
+    (h2 : ruleStep rule ops env (union w x) = .ok (wx', cmdsx)) :
+    ∀ g ∈ w.gcs, part (selOf w g.id) wx' = part (selOf w g.id) w' ∧
+      cmdsx.filter (fun kv => (selOf w g.id).S.contains kv.1)
+        = cmds.filter (fun kv => (selOf w g.id).S.contains kv.1) := by
+  intro g hg
+  exact C16_ruleStep_isolation rule ops env (selOf w g.id) (union w x) w wx' w' cmdsx cmds
+    (link_union w x g hg hu hx) (link_selOf w g.id hu) (part_union w x g hg hx) h2 h1
+
+/-- a toy battery for the non-vacuity check: accepts half of what it is offered -/
+def toyOps : BatOps ℚ ℚ where
+  soc b := b
+  capacity _ := 10
+  efficiency _ := 1
+  unloadMaxPower _ := 5
+  load b mp _ tp := .ok (b + 1/100, ((tp.getD (mp.getD 0)) / 2))
+  unload b _ _ tp := .ok (b, (tp.getD 0) / 2)
+  available _ := .ok 0
+
+def toyW : SWorld ℚ ℚ :=
+  ⟨[⟨"GC1", 20, some (.fixed (3/10)), [("load", 2)]⟩], [⟨"CS1", "GC1", 11, 0, 0⟩],
+   [⟨"v1", some "CS1", 4/5, some 7200000000, 0, false, 0, 1/2⟩], [⟨"BAT1", "GC1", 0, 1/2⟩]⟩
+
+def toyX : SWorld ℚ ℚ :=
+  ⟨[⟨"GC2", 5, some (.fixed (1/10)), []⟩], [⟨"CS2", "GC2", 22, 0, 0⟩],
+   [⟨"v2", some "CS2", 1, none, 0, false, 0, 1/5⟩], []⟩
+
+def toyEnv : StratEnv ℚ := ⟨1/100000, 1/10, 4, 0, 900000000⟩
+
+/-- Non-vacuity: the hypotheses of `C16_added_connector` are met by a depot with one vehicle and a
+battery, and an added connector with its own vehicle; both steps succeed. -/
+example : UniqueIds toyW ∧ Unrelated toyW toyX ∧
+    (ruleStep .greedy toyOps toyEnv toyW).isOk = true ∧
+    (ruleStep .greedy toyOps toyEnv (union toyW toyX)).isOk = true := by
+  refine ⟨⟨by decide, by decide, by decide⟩, ⟨by decide, by decide, by decide, by decide, by decide,
+    by decide, by decide⟩, by decide +kernel, ?_⟩
+  -- the kernel does not unfold the well-founded `mergeSort`: the id list is already sorted
+  have hs : sortedVehicleIds (resetStations (union toyW toyX)) = ["v1", "v2"] := by
+    unfold sortedVehicleIds
+    exact List.mergeSort_of_pairwise (by decide)
+  unfold ruleStep
+  simp only [hs]
+  decide +kernel
+
+end Isolation
 
 end SpiceEv
